@@ -75,7 +75,7 @@ def _gen_tree(rng, family, max_junctions, sorted_labels, thermal, kinds, big_lab
     cnt = _Counter(rng, sorted_labels)
     all_kinds = ["pipe_std", "valve", "pump", "compressor", "flow_control", "press_control",
                  "heat_exchanger", "mass_storage", "source", "second_feeder", "valve_pi",
-                 "heights", "sections", "closed_valve", "oos"]
+                 "heights", "sections", "closed_valve", "oos", "nan_load"]
     if kinds is None:
         k = rng.randint(0, len(all_kinds))
         kinds = set(rng.sample(all_kinds, k))
@@ -243,6 +243,15 @@ def _gen_tree(rng, family, max_junctions, sorted_labels, thermal, kinds, big_lab
         ops.append({"fn": "create_mass_storage", "kw": {"junction": so["kw"]["junction"],
                                                         "mdot_kg_per_s": mdot, "index": idx}})
         meta["loads"].append(("mass_storage", idx, "mdot_kg_per_s", mdot))
+    if "nan_load" in kinds:
+        # a consumer / feed-in without a value: documented to count as zero flow
+        idx = cnt.new("sink")
+        ops.append({"fn": "create_sink", "kw": {"junction": jl[rng.randrange(0, n)], "mdot_kg_per_s": float("nan"),
+                                                "index": idx}})
+        if rng.random() < 0.5:
+            idx = cnt.new("source")
+            ops.append({"fn": "create_source", "kw": {"junction": jl[rng.randrange(0, n)],
+                                                      "mdot_kg_per_s": float("nan"), "index": idx}})
     if "second_feeder" in kinds and n >= 3:
         idx = cnt.new("ext_grid")
         ops.append({"fn": "create_ext_grid", "kw": {
@@ -339,14 +348,33 @@ def _gen_heat(rng, max_junctions, sorted_labels, kinds, big_labels):
             total_mdot += mdot
         meta["loads"].append(("heat_consumer", idx, "qext_w", q)) if "qext_w" in kw else None
     meta["hc_modes"] = [m for (_, m) in consumers]
+    # bypass at the far end (valve between flow and return line): the one path whose flow is not prescribed
+    bypass = None
+    if "valve" in kinds or "circ_mass" in kinds:
+        bypass = cnt.new("valve")
+        ops.append({"fn": "create_valve", "kw": {
+            "junction": fl[k], "element": rl[k], "et": "ju", "inner_diameter_mm": rng.choice([10.0, 15.0]),
+            "opened": True, "loss_coefficient": rng.choice([5.0, 20.0]), "index": bypass}})
+        meta["branches"].append(("valve", bypass))
     # feeder
-    if "circ_mass" in kinds and all(m.startswith("mdot") for (_, m) in consumers) and False:
-        pass
-    idx = cnt.new("circ_pump_pressure")
-    ops.append({"fn": "create_circ_pump_const_pressure", "kw": {
-        "return_junction": rl[0], "flow_junction": fl[0], "p_flow_bar": p0,
-        "plift_bar": _r(rng, 0.5, 3.0, 2), "t_flow_k": tflow, "index": idx, "type": "auto"}})
-    meta["feeders"].append(("circ_pump_pressure", idx))
+    if "circ_mass" in kinds and bypass is not None:
+        # prescribed total mass flow: consumers take their share, the rest passes the (always open) bypass
+        idx = cnt.new("circ_pump_mass")
+        ops.append({"fn": "create_circ_pump_const_mass_flow", "kw": {
+            "return_junction": rl[0], "flow_junction": fl[0], "p_flow_bar": p0,
+            "mdot_flow_kg_per_s": round(total_mdot * 1.2 + _r(rng, 0.3, 1.5, 3), 3), "t_flow_k": tflow, "index": idx,
+            "type": "auto"}})
+        meta["feeders"].append(("circ_pump_mass", idx))
+    else:
+        idx = cnt.new("circ_pump_pressure")
+        ops.append({"fn": "create_circ_pump_const_pressure", "kw": {
+            "return_junction": rl[0], "flow_junction": fl[0], "p_flow_bar": p0,
+            "plift_bar": _r(rng, 0.5, 3.0, 2), "t_flow_k": tflow, "index": idx, "type": "auto"}})
+        meta["feeders"].append(("circ_pump_pressure", idx))
+        if bypass is not None:
+            meta["toggles"].append(("valve", bypass, "opened"))
+            if "closed_valve" in kinds and rng.random() < 0.5:
+                ops[[i for i, o in enumerate(ops) if o["fn"] == "create_valve"][0]]["kw"]["opened"] = False
     for (t, i) in meta["branches"]:
         if t == "heat_consumer" and len(consumers) > 1:
             meta["toggles"].append(("heat_consumer", i, "in_service"))
